@@ -132,7 +132,7 @@ def run(chk: Check, drv: Driver):
     kind_sets = [["evaluate"], ["assemble"], ["compute"], ["evaluate", "assemble", "compute"]]
     from .. import graphcorr
 
-    all_prs = [pr for pr in kruns.enumerate_problems(chk, n_random=(40 if quick else 500), per_assignment=(3 if quick else 12), extra_texts=ident_texts)
+    all_prs = [pr for pr in kruns.enumerate_problems(chk, n_random=(40 if quick else 300), per_assignment=(3 if quick else 8), extra_texts=ident_texts)
                if pr.problem is not None]
     # what the validated model of the UNCHANGED compiler predicts: finding F3 (internal NotImplementedError) is
     # known only for problems whose chosen graph the model itself classifies as not lowerable
